@@ -183,6 +183,33 @@ def make_config(rng):
     if slots:
       n, k = rng.choice(slots)
       n.kw[k] = gen.Leaf(functools.partial(kinds.two, 1, y='p'))
+  if rng.random() < 0.12:
+    # ONE tuple (holding a Buildable that nothing else refers to) under the SAME argument name
+    # of two different nodes
+    import inspect as _inspect
+    hosts = [n for n in gen.walk(root) if isinstance(n, gen.B) and n.btype in ('Config', 'Partial')
+             and n.fn is not dict]
+    pairs = []
+    for i_, h1 in enumerate(hosts):
+      for h2 in hosts[i_ + 1:]:
+        try:
+          common = [k for k in _inspect.signature(h1.fn).parameters
+                    if k in _inspect.signature(h2.fn).parameters and k not in ('uid', 'va', 'vk', 'args', 'kwargs')
+                    and _inspect.signature(h1.fn).parameters[k].kind == _inspect.Parameter.POSITIONAL_OR_KEYWORD
+                    and _inspect.signature(h2.fn).parameters[k].kind == _inspect.Parameter.POSITIONAL_OR_KEYWORD]
+        except (TypeError, ValueError):
+          common = []
+        if common and not h1.pos and not h2.pos:
+          pairs.append((h1, h2, common))
+    if pairs:
+      h1, h2, common = rng.choice(pairs)
+      k = rng.choice(common)
+      if h1.uid not in {x.uid for x in gen.walk(h2)} and h2.uid not in {x.uid for x in gen.walk(h1)}:
+        shared_tuple = gen.Seq('tuple', [gen.B('Config', kinds.two, kw={'x': gen.Leaf(1)}), gen.Leaf('t')])
+        h1.kw[k] = shared_tuple
+        h2.kw[k] = shared_tuple
+        h1.tags.pop(k, None)
+        h2.tags.pop(k, None)
   if rng.random() < 0.1:
     # a list of functions / classes as an argument value (a sub-fixture candidate of its own)
     slots = [(n, k) for n in gen.walk(root) if isinstance(n, gen.B) and n.btype != 'TaggedValue'
